@@ -483,6 +483,33 @@ func (v *View) startCtxEnded(inst string, idx int) bool {
 	return ended
 }
 
+// runningWithin: the instance is started (and not stopped) at some moment of [from, to].
+func (v *View) runningWithin(inst string, from, to time.Duration) bool {
+	running := false
+	for _, a := range v.APIs {
+		if a.Inst != inst {
+			continue
+		}
+		if a.CallVT > to {
+			break
+		}
+		if a.API == "Start" && a.Result == "ok" {
+			running = true
+			continue
+		}
+		if a.IsStop() && !a.Teardown {
+			if a.CallVT >= from {
+				// it was running up to this stop call, inside the interval
+				if running {
+					return true
+				}
+			}
+			running = false
+		}
+	}
+	return running
+}
+
 // termEndsAt: a term of the instance ends with the event at position idx.
 func (v *View) termEndsAt(inst string, idx int) bool {
 	for _, t := range v.Terms[inst] {
